@@ -44,6 +44,8 @@ type TxnGen struct {
 	Next int // next fresh uuid number
 	// Excluded counts shapes excluded by construction because of known findings.
 	Excluded map[string]int
+
+	nameTable map[string]string
 }
 
 func NewTxnGen(s Schema, cfg TxnCfg) *TxnGen {
@@ -63,7 +65,7 @@ func (g *TxnGen) fresh() string {
 }
 
 func (g *TxnGen) pool(st State, extra map[string][]string, names []string) *Pool {
-	p := &Pool{RowUUIDs: map[string][]string{}, Names: names, Wide: g.Cfg.Wide, NoDangling: g.Cfg.NoDangling}
+	p := &Pool{RowUUIDs: map[string][]string{}, Names: names, NameTable: g.nameTable, Wide: g.Cfg.Wide, NoDangling: g.Cfg.NoDangling}
 	for _, t := range g.S.Tables {
 		p.RowUUIDs[t.Name] = append(SortedUUIDs(st[t.Name]), extra[t.Name]...)
 	}
@@ -297,6 +299,55 @@ func (g *TxnGen) GenInsert(t *rapid.T, tb Table, pool *Pool, name string) Op {
 
 // GenTxn draws one transaction against the reference state st.
 func (g *TxnGen) GenTxn(t *rapid.T, st State) []Op {
+	ops := g.genTxn(t, st)
+	dedupeNames(ops)
+	scrubZeroUUID(ops)
+	return ops
+}
+
+// scrubZeroUUID removes explicit mentions of the all-zero uuid: libovsdb keeps an unset
+// scalar uuid column as "" natively, which the harness reads as RFC 7047's default
+// (all-zero) uuid; writing that uuid explicitly is outside the generated domain.
+func scrubZeroUUID(ops []Op) {
+	for i := range ops {
+		for k, v := range ops[i].Row {
+			if hasZeroUUID(v) {
+				delete(ops[i].Row, k)
+			}
+		}
+		for _, r := range ops[i].Rows {
+			for k, v := range r {
+				if hasZeroUUID(v) {
+					delete(r, k)
+				}
+			}
+		}
+		var where []Cond
+		for _, c := range ops[i].Where {
+			if !hasZeroUUID(c.Val) {
+				where = append(where, c)
+			}
+		}
+		if len(where) != len(ops[i].Where) {
+			if where == nil {
+				where = []Cond{}
+			}
+			ops[i].Where = where
+		}
+		var muts []Mut
+		for _, m := range ops[i].Mutations {
+			if !hasZeroUUID(m.Val) {
+				muts = append(muts, m)
+			}
+		}
+		if len(muts) != len(ops[i].Mutations) {
+			ops[i].Mutations = muts
+		}
+	}
+}
+
+func (g *TxnGen) genTxn(t *rapid.T, st State) []Op {
+	g.nameTable = map[string]string{}
 	nops := rapid.IntRange(1, g.Cfg.MaxOps).Draw(t, "nops")
 	// decide op kinds and names up front so that names can be used before their definition
 	kinds := make([]string, nops)
@@ -321,6 +372,7 @@ func (g *TxnGen) GenTxn(t *rapid.T, st State) []Op {
 		if kinds[i] == "insert" && g.Cfg.Named && rapid.IntRange(0, 2).Draw(t, "named") == 0 {
 			opName[i] = fmt.Sprintf("n%d", len(names))
 			names = append(names, opName[i])
+			g.nameTable[opName[i]] = tb.Name
 		}
 	}
 	if g.Cfg.RefBias && rapid.IntRange(0, 2).Draw(t, "composite") == 0 {
@@ -426,7 +478,51 @@ func (g *TxnGen) GenTxn(t *rapid.T, st State) []Op {
 			ops = append(ops, g.GenWait(t, tb, rows, pool))
 		}
 	}
+	dedupeNames(ops)
 	return ops
+}
+
+// dedupeNames removes a symbolic name from any set/map that also holds the explicit
+// uuid the name is bound to: after resolution the value would hold the same element
+// twice, which no <set> can (precondition of the generated domain).
+func dedupeNames(ops []Op) {
+	bound := map[string]string{}
+	for _, op := range ops {
+		if op.Op == "insert" && op.UUIDName != "" && op.UUID != "" {
+			if _, ok := bound[op.UUIDName]; !ok {
+				bound[op.UUIDName] = op.UUID
+			}
+		}
+	}
+	if len(bound) == 0 {
+		return
+	}
+	fix := func(v Val) Val {
+		for _, a := range v.K {
+			if a.T == TUUID {
+				if u, ok := bound[a.S]; ok && len(v.K) > 1 && v.Has(UUID(u)) {
+					v = v.Without(a)
+				}
+			}
+		}
+		return v
+	}
+	for i := range ops {
+		for k, v := range ops[i].Row {
+			ops[i].Row[k] = fix(v)
+		}
+		for _, r := range ops[i].Rows {
+			for k, v := range r {
+				r[k] = fix(v)
+			}
+		}
+		for j := range ops[i].Where {
+			ops[i].Where[j].Val = fix(ops[i].Where[j].Val)
+		}
+		for j := range ops[i].Mutations {
+			ops[i].Mutations[j].Val = fix(ops[i].Mutations[j].Val)
+		}
+	}
 }
 
 func (g *TxnGen) genColumns(t *rapid.T, tb Table, withUUID bool) []string {
@@ -593,6 +689,7 @@ func (g *TxnGen) genAttach(t *rapid.T, st State) []Op {
 		ops[0].UUIDName = "child"
 		ref = UUID("child")
 		pool.Names = []string{"child"}
+		pool.NameTable = map[string]string{"child": target.Name}
 	}
 	// the referrer: an existing row of s.tb, or a new one
 	holders := SortedUUIDs(st[s.tb.Name])
